@@ -92,7 +92,10 @@ CLAIMED['C17'] = dict(
          "and shared_ptr members are not taken from the source and every copied component that carries a Tolerances pointer is re-bound to the "
          "copy's own object (including the solver's cloned pricer / ratio tester / starter); every member the default-constructor path assigns is "
          "also assigned on the copy-construction path; no nondeterminism source (rand, time seeding, foreign RNG engines, unordered iteration) "
-         "occurs in library code (positive controls fire on every run). Not a proof of bit-identical results.",
+         "occurs in library code (positive controls fire on every run); an if inside a copy operation whose branch copies a member from the source "
+         "never tests the destination's own member; a raw back-pointer that a copy operation copies verbatim is re-bound to the copy's own object "
+         "on the copy path (five instances fire on the unchanged tree and are reported as KNOWN-FINDING: a copy of a persistently scaled solver keeps "
+         "pointing at the source's scaler and scaling factors). Not a proof of bit-identical results.",
     technique="observer read-set vs. copy write-set comparison, constructor-parity dataflow, alias/re-bind rules and forbidden-API scan over the clang-resolved AST and call graph",
     ref="DESIGN.md section 4, C17")
 
@@ -102,8 +105,9 @@ CLAIMED['C16'] = dict(
          "right status; in the polishing loops the limit tests lie between any two pivots and set the stop flag every loop tests; abort statuses "
          "are never rewritten to a definite verdict and their arms store solution and basis; the exact solver maps stoppedTime/stoppedIter to "
          "ABORT_TIME/ABORT_ITER and _isSolveStopped compares used amounts with the limits; every iteration/time budget handed to a solver is limit "
-         "minus amount already used; the interrupt pointer is forwarded by every caller that has one. Not a proof of resumability or of "
-         "objective-limit truth.",
+         "minus amount already used; the interrupt pointer is forwarded by every caller that has one, and a function that takes it reads or "
+         "forwards it (three instances fire on the unchanged tree and are reported as KNOWN-FINDING: the exact solver ignores the interrupt flag). "
+         "Not a proof of resumability or of objective-limit truth.",
     technique="CFG reachability under guard-true assumptions, decision-table rules on status switches, argument-shape and parameter-forwarding rules over the clang-resolved AST",
     ref="DESIGN.md section 4, C16")
 
@@ -125,9 +129,11 @@ CLAIMED['C13'] = dict(
          "reported); placement-new objects are destroyed before their memory is freed and spx_alloc'ed locals are freed on every normal exit; buffers "
          "that share a growing size variable are all re-sized; NameSet::add's capacity guard covers the bytes consumed; failed reads clear what they "
          "built; throwing conversions in the settings front ends are inside try blocks; the test after a stream read takes its exit arm at end of "
-         "file; a char pointer is not advanced beyond the terminator it was found on. Positive controls fire on every run. This pins known-dangerous "
-         "idioms; it is not a proof of memory safety - a fuzzer is the natural tool for the rest.",
-    technique="buffer-use classification, alloc/free and construct/destroy pairing on the CFG, three-valued evaluation of stream-state and terminator tests, linear guard/consumption comparison over the clang-resolved AST",
+         "file; a char pointer is not advanced beyond the terminator it was found on; every call of a reader helper that asserts an input predicate is "
+         "unreachable when the predicate is false; an MPS field is used as a string only after a null test since the line was read; no assertion "
+         "states something about text or numbers read from the file; every character-scanning loop's condition is false at the terminator. Positive "
+         "controls fire on every run. This pins known-dangerous idioms; it is not a proof of memory safety - a fuzzer is the natural tool for the rest.",
+    technique="buffer-use classification, alloc/free and construct/destroy pairing on the CFG, reachability under predicate-false / field-null assumptions, three-valued evaluation of stream-state, terminator and scanning-loop tests, linear guard/consumption comparison over the clang-resolved AST",
     ref="DESIGN.md section 4, C13")
 
 CLAIMED['C12'] = dict(
@@ -145,10 +151,13 @@ CLAIMED['C05'] = dict(
     text="Structural necessary conditions in the five basis-inverse / basis-multiply queries: the result of every scaling computation is consumed; wherever "
          "a split on the kind of basis member applies a scale exponent the column arm uses the column exponent and the slack arm the row exponent with "
          "opposite signs; exponents are looked up at number(baseId(E)) of the member that was tested, or at the decoded row index, never at the basis "
-         "position; the scaler object is dereferenced only under a test of the pointer itself; sparse outputs are filled within *ninds after setup(). "
-         "Eight instances fire on the unchanged tree and are reported as KNOWN-FINDING (row-representation branch of getBasisInverseColReal; null "
-         "scaler after the scaler parameter is switched off). Not a proof that the solves return the inverse.",
-    technique="discarded-result, sign/kind pairing, index-provenance and null-discipline rules over the clang-resolved AST",
+         "position, and at an index whose domain (loop bound, vector dimension, parameter contract) is the rows for a row exponent and the columns for "
+         "a column exponent; the scaler object is dereferenced only under a test of the pointer itself; sparse outputs are filled within *ninds after "
+         "setup(); products with the basis matrix are accumulated, never collected by appending sparse vectors and densifying; scaled and unscaled "
+         "variants of an operation are exclusive; no raw caller-supplied value is combined with a product of a scaled internal vector while scaling is "
+         "being undone. Five instances fire on the unchanged tree and are reported as KNOWN-FINDING (null scaler after the scaler parameter is "
+         "switched off). Not a proof that the solves return the inverse.",
+    technique="discarded-result, net-exponent sign/kind pairing, index-provenance and index-domain, null-discipline, accumulation-shape and homogeneity-under-assumption rules over the clang-resolved AST and CFG",
     ref="DESIGN.md section 4, C05")
 
 CLAIMED['C03'] = dict(
